@@ -172,7 +172,7 @@ func genJoe(rng *rand.Rand, g jGen) *jScenario {
 	if g.ReplayerFaults && sc.Replayer != "none" && rng.IntN(2) == 0 {
 		kind := "err"
 		if g.PanicFaults && rng.IntN(2) == 0 {
-			kind = "panic"
+			kind = []string{"panic", "panic_err"}[rng.IntN(2)]
 		}
 		if rng.IntN(2) == 0 {
 			sc.PutFault = map[int]string{1 + len(sc.Prefix) + rng.IntN(tok-len(sc.Prefix)+1): kind}
